@@ -52,6 +52,21 @@ def scOp (h : Heap) (op : String) : Heap × String :=
   | ["cl", i] => let (h', j) := clone h (natOf i); (h', toString j)
   | ["rp", i, p] => (reparent h (natOf i) (optNat p), "ok")
   | ["sul", i, k, v] => (setUnlessLocal h (natOf i) (natOf k) (natOf v), "ok")
+  | ["cc", c, fs] =>
+    let (h', ncls, nfs) := cloneClass h (natOf c) (decNats fs)
+    let rec up : Nat → Nat → List Nat → List Nat
+      | 0, _, acc => acc.reverse
+      | fuel + 1, i, acc =>
+        match h'[i]? with
+        | some fr => match fr.parent with
+          | some p => up fuel p (p :: acc)
+          | none => acc.reverse
+        | none => acc.reverse
+    let chains := nfs.map (fun i =>
+      let c := up 12 i []
+      if c.isEmpty then "-" else ",".intercalate (c.map toString))
+    (h', toString ncls ++ ";" ++ (if nfs.isEmpty then "-" else ",".intercalate (nfs.map toString))
+      ++ "|" ++ "|".intercalate chains)
   | ["dict", i] => (h, match h[natOf i]? with
       | some fr => encPairs fr.locals
       | none => "?")
